@@ -140,11 +140,11 @@ Definition roles_effects (k : kind) (r : role) (proxy : bool) (l : reach) : effe
 
 (* two overlapping follower reads: A has adopted revision r and is about to scan; B then syncs against an
    endpoint behaving as l.  Result: B's response class, every SetCurrentRevision value in order, the revision A
-   scans at (SetCurrentRevision is a plain store: B's value replaces A's). *)
+   scans at (SetCurrentRevision = tso.Commit only raises the read revision: the larger of the two). *)
 Definition overlap_model (r : N) (l : reach) : rclass * list N * N :=
   match sync_read Follower l with
   | SyncFail => (RespError, [r], r)
-  | SyncSet v => (RespOk, [r; v], v)
+  | SyncSet v => (RespOk, [r; v], N.max r v)
   | SyncSkip => (RespOk, [r], r)
   end.
 
@@ -156,7 +156,8 @@ Definition follow_model (r1 r2 : N) : list N * N := ([r1; r2], r2).
    is stored, so "leader flag => revision installed".  Phases of the node that wins the election: *)
 Inductive tk_phase := TkFollower | TkInstalling (* inside SetCurrentRevision(version), not yet stored *) | TkLeading.
 Definition tk_flag (p : tk_phase) : bool := match p with TkLeading => true | _ => false end.
-Definition tk_revision (p : tk_phase) (old version : N) : N := match p with TkLeading => version | _ => old end.
+(* SetCurrentRevision(version) raises the read revision: the larger of what the node had adopted and the lock version *)
+Definition tk_revision (p : tk_phase) (old version : N) : N := match p with TkLeading => N.max old version | _ => old end.
 Definition tk_role (p : tk_phase) : role := if tk_flag p then Leader else Follower.
 (* what a follower pointed at this node's /status gets for a List while the node is in phase p *)
 Definition tk_peer_read (p : tk_phase) (old version : N) : effects :=
@@ -297,9 +298,10 @@ Definition step (refetch share : bool) (s : isys) (l : label) : isys :=
       | PGot v => arrive_lock s t v
       | PBlocked _ => s                                (* blocked on the mutex *)
       | PInstalling v =>
-          (* second half: synced = v, SetCurrentRevision(v), unlock; a waiting thread gets the mutex *)
+          (* second half: synced = v, SetCurrentRevision(v) (tso.Commit: the read revision is raised to v, never lowered),
+             unlock; a waiting thread gets the mutex *)
           let s1 := set_thr s t (with_pc x PSet) in
-          let s2 := mkI (i_leader s1) v v None (i_flight s1) (i_a s1) (i_b s1) (i_sets s1 ++ [(t, i_frev s, v)]) in
+          let s2 := mkI (i_leader s1) (N.max (i_frev s) v) v None (i_flight s1) (i_a s1) (i_b s1) (i_sets s1 ++ [(t, i_frev s, v)]) in
           match t_pc (get_thr s2 (other t)) with
           | PBlocked v' => arrive_lock s2 (other t) v'
           | _ => s2
